@@ -276,13 +276,36 @@ def list_elements_skip_empty(ctx, report, RULE='C18.R15'):
     report.rule(RULE, 'lists of header / policy values skip empty elements: every parse_string_array call of the text modules passes skip_empty=True')
     MODS = ('cryptoparser/httpx/', 'cryptoparser/common/field.py', 'cryptoparser/dnsrec/txt.py')
 
-    def lax(node):
+    def table(expr, module_tree):
+        """the keyword dictionary behind ``**cls.NAME`` / ``**NAME``: a dict display or ``dict(...)`` bound to NAME in the module"""
+        name = expr.attr if isinstance(expr, ast.Attribute) else expr.id if isinstance(expr, ast.Name) else None
+        if name is None or module_tree is None:
+            return None
+        for st in ast.walk(module_tree):
+            if isinstance(st, ast.Assign) and any(isinstance(t, ast.Name) and t.id == name for t in st.targets):
+                v = st.value
+                if isinstance(v, ast.Dict) and all(isinstance(k, ast.Constant) for k in v.keys):
+                    return {k.value: val for k, val in zip(v.keys, v.values)}
+                if isinstance(v, ast.Call) and isinstance(v.func, ast.Name) and v.func.id == 'dict' and not v.args:
+                    return {k.arg: k.value for k in v.keywords if k.arg}
+        return None
+
+    def lax(node, module_tree=None):
         out = []
         for x in ast.walk(node):
             if isinstance(x, ast.Call) and isinstance(x.func, ast.Attribute) and x.func.attr == 'parse_string_array':
-                kw = {k.arg: k.value for k in x.keywords}
+                kw = {k.arg: k.value for k in x.keywords if k.arg}
+                undecidable = False
+                for k in x.keywords:
+                    if k.arg is None:       # ``**cls._LIST_PARAMS``
+                        more = table(k.value, module_tree)
+                        if more is None:
+                            undecidable = True
+                        else:
+                            kw.update(more)
                 se = kw.get('skip_empty', x.args[6] if len(x.args) > 6 else None)
-                out.append((x, isinstance(se, ast.Constant) and se.value is True))
+                ok = isinstance(se, ast.Constant) and se.value is True
+                out.append((x, None if (undecidable and not ok) else ok))
         return out
     sample = lax(ast.parse("parser.parse_string_array('value', ' ', item_class)\nparser.parse_string_array('v', ';', skip_empty=True)"))
     if [ok for _, ok in sample] != [False, True]:
@@ -293,9 +316,11 @@ def list_elements_skip_empty(ctx, report, RULE='C18.R15'):
         if f.module.external or not f.module.relpath.startswith(MODS):
             continue
         n += 1
-        for call, ok in lax(f.node):
+        for call, ok in lax(f.node, f.module.tree):
             report.count(RULE)
-            if not ok:
+            if ok is None:
+                report.undecided.append('%s: keyword dictionary of %s in %s not readable' % (RULE, ast.unparse(call)[:60], f.construct))
+            elif not ok:
                 report.add(RULE, '%s@list[%s]' % (f.construct, ast.unparse(call.args[0])[:30] if call.args else '?'),
                            '%s does not skip empty elements: a run of separators (two spaces between source expressions, ";;", ", ,") is refused '
                            'although the grammar allows it' % ast.unparse(call)[:110])
